@@ -62,7 +62,24 @@ def r2(R):
     g, b, F = R.cfg(f, None, max_depth=0)
     R.instance('copyfile')
 
+    nparam = f.params[3] if len(f.params) > 3 else 'n'
+    done_var = [None]
+
     def edge(node, st, lab, tgt):
+        if node.kind in ('test', 'assert') and done_var[0]:
+            from ..flow import implied_atoms as _ia
+            for lb in ('T', 'F'):
+                pass
+            if lab in ('T', 'F'):
+                for e, truth in _ia(node.ast if node.kind == 'test'
+                                    else node.ast.test, lab):
+                    if isinstance(e, ast.Compare) and len(e.ops) == 1 and {
+                            ast.unparse(e.left),
+                            ast.unparse(e.comparators[0])} == {
+                                done_var[0], nparam}:
+                        eq = isinstance(e.ops[0], ast.Eq) == truth
+                        if st == 'written-unchecked':
+                            return 'written' if eq else 'short'
         if lab == 'e':
             return st
         for op in F.ops(node):
@@ -70,10 +87,25 @@ def r2(R):
                 continue
             last = op.path[-1]
             if last.endswith('dofile'):
-                st = 'written'
+                s_ = op.stmt
+                if isinstance(s_, ast.Assign) and isinstance(
+                        s_.targets[0], ast.Name):
+                    done_var[0] = s_.targets[0].id
+                st = 'written-unchecked'
             elif last.endswith('fsync') and st == 'written':
                 st = 'synced'
             elif op.path in (('@os', 'rename'), ('@os', 'replace')):
+                if st in ('written-unchecked', 'short'):
+                    return Violation(
+                        'the backup chunk is renamed into place although the '
+                        'number of bytes copied was %s: if the data file '
+                        'shrank (a pack) between the scan and the copy, a '
+                        'short chunk is recorded with the intended range, and '
+                        'verification and recovery of an untouched '
+                        'repository fail' % (
+                            'found to differ from the number wanted'
+                            if st == 'short' else
+                            'not compared with the number wanted'))
                 if st != 'synced':
                     return Violation(
                         'the backup file is given its final name before its '
@@ -311,5 +343,69 @@ def r5(R):
     R.instance('do_backup incremental call sites', n=sites[0])
     R.instance('prefix checksum comparison')
     R.require(sites[0] >= 2 or vs, 'incremental call sites vanished')
+    for v in vs:
+        R.violation(v.node, v.message, g, v.path)
+
+
+@rule('C18.R6', 'a backup run decides "nothing changed" only after comparing '
+      'a checksum of the source with a checksum of what the repository '
+      'holds', min_instances=1)
+def r6(R):
+    f = fn(R, 'do_backup')
+    g, b, F = R.cfg(f, None, max_depth=0)
+    R.instance('do_backup no-change decisions')
+    rets = [0]
+
+    def kind(e, fr):
+        pv = provenance(e, fr, F)
+        repo = prov_has(pv, 'call', lambda p: p[-1].split('.')[-1] in (
+            'concat', 'scandat'))
+        src = prov_has(pv, 'call', lambda p: p[-1].split('.')[-1] ==
+                       'checksum')
+        return repo, src
+
+    def edge(node, st, lab, tgt):
+        verified, backed = st
+        if node.kind == 'test' and lab in ('T', 'F'):
+            for e, truth in implied_atoms(node.ast, lab):
+                if isinstance(e, ast.Compare) and len(e.ops) == 1 and \
+                        isinstance(e.ops[0], (ast.Eq, ast.NotEq)) and \
+                        isinstance(e.left, ast.Name) and isinstance(
+                            e.comparators[0], ast.Name) and \
+                        'sum' in e.left.id and 'sum' in e.comparators[0].id:
+                    eq = isinstance(e.ops[0], ast.Eq) == truth
+                    ra, sa = kind(e.left, node.frame)
+                    rb, sb = kind(e.comparators[0], node.frame)
+                    # one side is a checksum of the source, the other
+                    # comes from the repository and is not itself a
+                    # checksum of the source
+                    if eq and ((ra and not sa and sb) or
+                               (rb and not sb and sa)):
+                        verified = True
+        if lab != 'e':
+            for op in F.ops(node):
+                if op.kind == 'call' and op.path and op.path[-1].split(
+                        '.')[-1] in ('do_full_backup',
+                                     'do_incremental_backup'):
+                    backed = True
+        return (verified, backed)
+
+    def at(node, st):
+        verified, backed = st
+        if node.kind == 'return' and node.frame.parent is None:
+            rets[0] += 1
+            if not backed and not verified:
+                return Violation(
+                    'do_backup returns without taking a backup on a path '
+                    'that never found a checksum of the source equal to a '
+                    'checksum of the repository\'s contents (it compares two '
+                    'checksums of the source, or sizes only): after a pack '
+                    'followed by growth back to the same size the run says '
+                    '"no changes" and recovery yields the stale file')
+        return st
+
+    vs, stats = explore(g, (False, False), at=at, edge=edge)
+    R.count(stats)
+    R.require(rets[0] or vs, 'do_backup has no return')
     for v in vs:
         R.violation(v.node, v.message, g, v.path)
